@@ -5,6 +5,9 @@
 (* first one produced (possibly with one entry withheld).                                            *)
 EXTENDS Encoding, TraceLib
 
+CONSTANT Strict   \* TRUE: the real output must equal the encoding Encoding.tla computes (ids assigned in sorted order) - conformance of the
+                  \*       transcription, a diagnostic; FALSE: the clauses of C01 themselves are evaluated on the real output, whatever
+                  \*       numbering the encoder chose - the verdict on the property
 VARIABLE tid
 T == Traces[tid]
 
@@ -38,5 +41,40 @@ TreatOk ==
                    /\ Check(tid, 2, "sub-sample-ids-verbatim", T.subgot.sids = ws.ids /\ T.subgot.smap = ws.mapping)
                    /\ Check(tid, 2, "sub-sizes-bound-ids", \A i \in IdsIn(T.subgot.ids) : i < T.subgot.nut)))
 
-Decide == Verdict(tid, TreatOk)
+(* ---- the clauses of C01 on the real output ---- *)
+CellsOf(m) == {<<r, a>> : r \in 1..Len(m), a \in 1..T.arity}
+DenseSet(S) == S = 0..Cardinality(S) - 1
+RelTreat(rws, ids, mp, nut) ==
+    /\ Check(tid, 1, "C01:treatment-id-decodes-to-its-name-and-dose",
+             \A c \in CellsOf(ids) : \E y \in 1..Len(mp) : mp[y] = <<rws[c[1]][c[2]][1], rws[c[1]][c[2]][2], ids[c[1]][c[2]]>>)
+    /\ Check(tid, 1, "C01:control-sentinel-iff-control-name-or-non-positive-dose",
+             \A c \in CellsOf(ids) : (ids[c[1]][c[2]] = -1) <=> IsCtl(rws[c[1]][c[2]], T.ctl))
+    /\ Check(tid, 1, "C01:treatment-ids-dense", DenseSet({ids[c[1]][c[2]] : c \in CellsOf(ids)} \ {-1}))
+    /\ Check(tid, 1, "C01:equal-treatment-ids-iff-equal-name-and-dose",
+             \A c, d \in CellsOf(ids) : (ids[c[1]][c[2]] # -1 /\ ids[d[1]][d[2]] # -1) =>
+                 ((ids[c[1]][c[2]] = ids[d[1]][d[2]]) <=> (rws[c[1]][c[2]] = rws[d[1]][d[2]])))
+    /\ Check(tid, 1, "C01:experiment-space-size-bounds-every-treatment-id", \A c \in CellsOf(ids) : ids[c[1]][c[2]] < nut)
+Rel1(what, names, ids, mp) ==
+    /\ Check(tid, 1, "C01:" \o what \o "-id-decodes-to-its-name", \A x \in 1..Len(names) : \E y \in 1..Len(mp) : mp[y] = <<names[x], ids[x]>>)
+    /\ Check(tid, 1, "C01:" \o what \o "-ids-dense", DenseSet({ids[x] : x \in 1..Len(ids)}))
+    /\ Check(tid, 1, "C01:equal-" \o what \o "-ids-iff-equal-name", \A x, y \in 1..Len(names) : (ids[x] = ids[y]) <=> (names[x] = names[y]))
+RelOk ==
+    /\ RelTreat(T.rows, T.got.ids, T.got.mapping, T.got.nut)
+    /\ Rel1("sample", T.samples, T.got.sids, T.got.smap)
+    /\ Rel1("plate", T.plates, T.got.pids, T.got.pmap)
+    /\ Check(tid, 1, "C01:experiment-space-size-bounds-every-sample-id", \A x \in 1..Len(T.got.sids) : T.got.sids[x] < T.got.nus)
+    /\ (T.hassub =>
+          LET sr == [x \in 1..Len(T.sub) |-> T.rows[T.sub[x]]]
+              ss == [x \in 1..Len(T.sub) |-> T.samples[T.sub[x]]]
+              sup == Withheld(T.got.mapping, T.drop)              \* the mapping batchie itself produced, one entry possibly withheld
+              ssup == Withheld(T.got.smap, T.sdrop)
+              w == EncodeTreatWith(sr, T.arity, sup)
+              ws == Encode1With(ss, ssup)
+          IN /\ Check(tid, 2, "C01:supplied-mapping-accepted-iff-dense-and-covering", T.subgot.ok = (w.status = "ok" /\ ws.status = "ok"))
+             /\ (T.subgot.ok =>
+                   /\ Check(tid, 2, "C01:supplied-treatment-mapping-followed-verbatim", T.subgot.ids = w.ids /\ T.subgot.mapping = sup)
+                   /\ Check(tid, 2, "C01:supplied-sample-mapping-followed-verbatim", T.subgot.sids = ws.ids /\ T.subgot.smap = ssup)
+                   /\ Check(tid, 2, "C01:sizes-from-supplied-mapping-bound-ids", \A i \in IdsIn(T.subgot.ids) : i < T.subgot.nut)))
+
+Decide == Verdict(tid, IF Strict THEN TreatOk ELSE RelOk)
 =============================================================================
